@@ -148,11 +148,13 @@ pub fn observe(bytes: &[u8], path: Option<&Path>, cap: usize) -> LogObs {
             Ok(v) => Ok(v),
             Err(e) => Err(short(&e)),
         });
-        // the real table builder (the KeyValueStore::open replay path) for logs below 256 KiB; the
-        // multi-block filler logs cost milliseconds per table and are covered by the collecting builder
+        // the real table builder (the KeyValueStore::open replay path) for logs below 256 KiB whose
+        // drain ends cleanly: log_to_builder reads the whole log before it touches the builder, so
+        // on a log whose drain fails the builder type cannot matter (the collecting builder above
+        // covers it), and the multi-block filler logs cost milliseconds per table
         let out = path.with_extension("replayed.sst");
         let _ = std::fs::remove_file(&out);
-        o.table = if bytes.len() > REAL_TABLE_MAX { None } else { Some(match sst::SstBuilder::new(sst::SstOptions::default(), &out) {
+        o.table = if bytes.len() > REAL_TABLE_MAX || o.err.is_some() { None } else { Some(match sst::SstBuilder::new(sst::SstOptions::default(), &out) {
             Ok(b) => match sst::log::log_to_builder(sst::LogOptions::default(), path, b) {
                 Ok(None) => Ok(None),
                 Ok(Some(table)) => {
